@@ -4,5 +4,5 @@ set -e
 N="$1"; D=/var/tmp/wt/$N
 mkdir -p /var/tmp/wt
 git -C /repo worktree add --detach "$D" HEAD >/dev/null 2>&1
-rsync -a --exclude nextest /repo/target/ "$D/target/"
+rsync -a --exclude nextest --exclude incremental --exclude "deps/*sozu*" --exclude "debug/sozu*" /repo/target/ "$D/target/"
 echo "$D"
